@@ -47,6 +47,19 @@ fn random_set(g: &mut Gen, n: u64, m: u64) -> Vec<u64> {
 }
 
 pub fn c02(g: &mut Gen) {
+    // vectors built through the builder's OTHER public routes: `set`, `Extend::extend` in several chunks, mixed — the
+    // conversion's bytes are compared, then the same positions are queried through `build`
+    for (n, vals) in [(300u64, vec![3u64, 68, 132, 200, 299]), (1000, (0..40).map(|i| i * 23 + 7).collect::<Vec<u64>>()), (70, vec![0, 1, 2, 63, 64, 69]), (5, vec![4])] {
+        let k = vals.len();
+        let mut lines = Vec::new();
+        let strs: Vec<String> = vals.iter().map(|v| v.to_string()).collect();
+        lines.push(format!("sp - builder {} {} 0 : e{} c", n, k, strs.join(",")));
+        lines.push(format!("sp - builder {} {} 0 : s{} e{} c", n, k, strs[0], strs[1..].join(",")));
+        if k >= 3 { lines.push(format!("sp - builder {} {} 0 : e{} e{} e{} c", n, k, strs[..1].join(","), strs[1..k / 2 + 1].join(","), strs[k / 2 + 1..].join(","))); }
+        if k >= 3 { lines.push(format!("sp - builder {} {} 0 : t{} e{} s{} c", n, k, strs[0], strs[1..k - 1].join(","), strs[k - 1])); }
+        lines.push(format!("sp A build {} 0 {}", n, vals_str(&vals))); lines.push("sp A ser".to_string());
+        g.group(lines);
+    }
     // exhaustive: every universe up to N, every subset, every argument
     let maxn = if g.thorough { 10 } else { 8 };
     for n in 0..=maxn {
